@@ -128,7 +128,58 @@ class Summary:
 
 
 class Effects:
+    def bases_of(self, c: ClassInfo) -> list:
+        out = []
+        mi = self.repo.module(c.module)
+        for b in c.bases:
+            b = b.split('[')[0]
+            if b in mi.classes:
+                out.append(mi.classes[b])
+            elif b in mi.imports and mi.imports[b][0] == 'rel':
+                r = self.repo.resolve_rel(mi.imports[b][1], mi.imports[b][2])
+                if r and r[0] == 'class':
+                    out.append(r[1])
+            elif '.' in b:
+                head, _, tail = b.partition('.')
+                if head in mi.imports and mi.imports[head][0] == 'rel':
+                    r = self.repo.resolve_rel(mi.imports[head][1], mi.imports[head][2])
+                    if r and r[0] == 'module' and tail in self.repo.modules[r[1]].classes:
+                        out.append(self.repo.modules[r[1]].classes[tail])
+        return out
+
+    def find_method(self, ci: ClassInfo, name: str):
+        seen = set()
+        stack = [ci]
+        while stack:
+            c = stack.pop(0)
+            if (c.module, c.name) in seen:
+                continue
+            seen.add((c.module, c.name))
+            if name in c.methods:
+                return c.methods[name]
+            stack.extend(self.bases_of(c))
+        return None
+
+    def subclasses_of(self, ci: ClassInfo) -> list:
+        if self._subclasses is None:
+            direct: dict = {}
+            for mi in self.repo.modules.values():
+                for c in mi.classes.values():
+                    for b in self.bases_of(c):
+                        direct.setdefault((b.module, b.name), []).append(c)
+            self._subclasses = direct
+        out, stack, seen = [], [ci], set()
+        while stack:
+            c = stack.pop()
+            for sub in self._subclasses.get((c.module, c.name), []):
+                if (sub.module, sub.name) not in seen:
+                    seen.add((sub.module, sub.name))
+                    out.append(sub)
+                    stack.append(sub)
+        return out
+
     def __init__(self, repo: Repo):
+        self._subclasses = None
         self.repo = repo
         self.summaries: dict[str, Summary] = {}
         self.funcs: dict[str, FuncInfo] = {fi.fq: fi for fi in repo.all_functions()}
@@ -665,6 +716,10 @@ class FunctionAnalysis:
                 m = self._find_method(ci, fn.attr)
                 if m is not None:
                     cands = [m]
+                    # virtual dispatch: the receiver may be an instance of any subclass that overrides the method
+                    for sub in self.eff.subclasses_of(ci):
+                        if fn.attr in sub.methods and sub.methods[fn.attr] is not m:
+                            cands.append(sub.methods[fn.attr])
             if not cands and fn.attr not in GENERIC_METHOD_NAMES and fn.attr not in MUTATOR_METHODS \
                     and fn.attr not in VIEW_METHODS and fn.attr not in FRESH_METHODS and fn.attr not in COPY_FALSE_METHODS:
                 cands = list(self.eff.method_index.get(fn.attr, []))
@@ -672,6 +727,9 @@ class FunctionAnalysis:
         return ('unknown', ast.unparse(fn)[:40])
 
     def _find_method(self, ci: ClassInfo, name: str):
+        return self.eff.find_method(ci, name)
+
+    def _find_method_unused(self, ci: ClassInfo, name: str):
         seen = set()
         stack = [ci]
         while stack:
